@@ -203,7 +203,10 @@ class SimKernel:
             f = f.f_back
         return False
 
-    def block(self, pred, timeout=None, label=None):
+    def block(self, pred, timeout=None, label=None, until=None):
+        """`until` is an absolute deadline (exact: no now + (t - now)
+        rounding, which at epoch magnitude can land one ulp short of t and
+        turn a 'sleep until t' loop into a spin)."""
         me = self.cur
         if me is None:
             # driver context: it must never block
@@ -215,6 +218,8 @@ class SimKernel:
         if self.policy != 'fifo':
             self.yield_point(label)
         deadline = None if timeout is None else self.now + max(0.0, timeout)
+        if until is not None:
+            deadline = until
         while True:
             if pred():
                 return True
@@ -235,6 +240,12 @@ class SimKernel:
             self.yield_point('sleep0')
             return
         self.block(lambda: False, seconds, label='sleep')
+
+    def sleep_until(self, when):
+        if when <= self.now:
+            self.yield_point('sleep0')
+            return
+        self.block(lambda: False, label='sleep', until=when)
 
     # ---- timers (run in scheduler context; must not block) ---------------
     def call_at(self, when, fn, *args):
